@@ -303,6 +303,23 @@ def check_csv_regex_shapes(run):
             O.fail('C02.legacy_csv.regex_read_as_expression', w, sorted(tags), sorted((info or {}).get('tags', [])), 'get_all_rules(csv)+normalize_merchant')
 
 
+def check_csv_most_specific(run):
+    """rule_mode most_specific with a legacy CSV rule file: the highest-ranked matching rule wins, whatever the order of the rows (C09)"""
+    O = run.O
+    path = os.path.join(run.tmp, 'merchant_categories.csv')
+    rows = ['AAA,Short,CatShort,SubShort,', 'AAA.*STORE,Longer,CatLong,SubLong,']
+    for order in ((0, 1), (1, 0)):
+        open(path, 'w').write('Pattern,Merchant,Category,Subcategory,Tags\n' + '\n'.join(rows[i] for i in order) + '\n')
+        O.case(('csv_most_specific', order))
+        clear_engine_cache()
+        tuples = get_all_rules(path, match_mode='most_specific')
+        m, c, s, info = normalize_merchant('AAA STORE 123', tuples, amount=5.0, txn_date=date(2025, 3, 5), field=None, data_source='Amex')
+        clear_engine_cache()
+        if (c, s) != ('CatLong', 'SubLong'):
+            O.fail('C09.legacy_csv_ignores_most_specific', {'csv_most_specific': [rows[i] for i in order]}, ('CatLong', 'SubLong'), (c, s),
+                   "get_all_rules(csv, match_mode='most_specific') + normalize_merchant")
+
+
 def check_transforms(run):
     """Field transforms are applied before matching (C01)."""
     O = run.O
@@ -372,6 +389,8 @@ def run(prop):
                     r.check(w['rules'], w['txn'], w['mode'])
                 elif 'csv_rules' in w:
                     check_csv(r, w['csv_rules'], w['txn'])
+                elif 'csv_most_specific' in w:
+                    check_csv_most_specific(r)
                 elif 'csv_shape' in w:
                     check_csv_regex_shapes(r)
                 elif 'list_tag_case' in w:
@@ -402,6 +421,8 @@ def run(prop):
                 check_list_valued_tags(r)
             if prop in ('C01', 'C02'):
                 check_csv_regex_shapes(r)
+            if prop == 'C09':
+                check_csv_most_specific(r)
             if prop == 'C01':
                 check_transforms(r)
                 r.finish_unknown()
